@@ -1,2 +1,8 @@
 pub mod common;
+pub mod exec;
+pub mod mini;
 pub mod c01;
+pub mod c07;
+pub mod c11;
+pub mod c13;
+pub mod c15;
